@@ -77,7 +77,7 @@ fn main() {
         _ => usage(),
     };
     let mut ctx = Ctx::new(pid, tier);
-    if pid == "C01" {
+    if pid == "C01" || pid == "C19" {
         total::start_watchdog(20_000);
     }
     regress::run(pid);
